@@ -13,7 +13,7 @@ def main():
         pid = chk["property_id"].lower()
         try:
             P = importlib.import_module("props." + pid)
-            ok, out = C.lake(["driver-" + P.COMPONENT, "JsonC.Props." + pid.upper()])
+            ok, out = C.lake(["driver-" + P.COMPONENT, "JsonC.Props." + pid.upper()] + ["JsonC.Lemmas." + m for m in getattr(P, "TIE", ())])
             if not ok:
                 print(out[-4000:])
                 print("setup: lake build failed for " + pid)
